@@ -59,12 +59,16 @@ def gen_case(rng, k):
     peaks = np.stack([rng.integers(-2 * c, shape[0] + 2 * c + 1, n), rng.integers(-2 * c, shape[1] + 2 * c + 1, n)], axis=1)
     if k % 3 == 0:
         peaks[0] = (-2 * c, int(rng.integers(0, shape[1])))          # entirely outside
+    # windows that end (or start) exactly on a frame edge: the last / first window that is not clipped on that side
+    peaks[-1] = (shape[0] - c, int(rng.integers(-c, shape[1] + c))) if k % 2 else (int(rng.integers(-c, shape[0] + c)), shape[1] - c)
+    if n >= 3:
+        peaks[1] = (c, shape[1] - c) if k % 4 < 2 else (shape[0] - c, c)
     fk = ("poisson", "gauss", "const", "zero", "hot", "negative", "disks", "huge")[k % 8]
     if k % 11 == 5:
         fk = ("int16_span", "int8_span")[(k // 11) % 2]
     return {"seed": int(rng.integers(1 << 30)), "pattern": pat, "shape": shape, "frame_kind": fk,
             "peaks": peaks.tolist(), "b": int(rng.integers(1, n + 3)),
-            "upsample": [False, True, 2, 3, 7, 20, 50][k % 7], "backend": "slicing" if k % 5 == 0 else "pixel"}
+            "upsample": [False, True, 2, 3, 7, 20, 50][k % 7], "backend": "slicing" if k % 5 in (0, 3) else "pixel"}
 
 
 def make_frame(rng, shape, kind):
@@ -172,6 +176,11 @@ def classify(kind, p, msgs):
 def search(ctx, boost=1, focus=()):
     rng = np.random.default_rng(ctx.seed + 1004)
     n = (240 if ctx.tier == "thorough" else 48) * boost
+    # known finding D13, pinned: a frame so small that the negative ring of BackgroundSubtraction has no pixel inside it
+    p = {"seed": 13, "pattern": {"kind": "background_subtraction", "radius": 6.0, "radius_outer": 10.14, "search": 12.0},
+         "shape": [3, 9], "frame_kind": "poisson", "peaks": [[1, 4], [0, 8]], "b": 2, "upsample": False, "backend": "pixel"}
+    msgs_ = run_case("wellformed", p)
+    ctx.oracle_case("wellformed", p, msgs_, key=classify("wellformed", p, msgs_) if msgs_ else None, nontrivial=True)
     for k in range(n):
         p = gen_case(rng, k)
         c = int(np.ceil(p["pattern"]["search"]))
